@@ -5,7 +5,7 @@ def classify(case_line):
     # The dedicated "vtep-retarget" stream (every 25th sequencer case) re-points a route the dataplane has to
     # another node in the same flush interval in which the old node's VTEP is removed.  The main stream never
     # contains that pattern (the generator repairs it away), so nothing else can hide behind this key.
-    if "vtep-retarget" in case_line.get("tags", []):
+    if "vtep-retarget" in (case_line.get("tags") or []):
         return "vtep-removed-before-route-retargeted"
     return None
 
